@@ -10,6 +10,7 @@ import SpecKitV.Props.VecGen
 import SpecKitV.Props.StartsGen
 import SpecKitV.Props.PostGen
 import SpecKitV.Props.Utils
+import SpecKitV.Props.SchedGlueGen
 
 #print axioms ltfStep_mono
 #print axioms ltfStep_logspaced
@@ -60,3 +61,23 @@ import SpecKitV.Props.Utils
 #print axioms gen_post_starts_safe
 #print axioms gen_round_half_up_eq_model
 #print axioms gen_round_half_up_eq_floor
+#print axioms SchedGlue.gen_require_args_eq
+#print axioms SchedGlue.gen_ltf_post_eq
+#print axioms SchedGlue.gen_vec_post_glue_eq
+#print axioms SchedGlue.gen_new_post_glue_eq
+#print axioms SchedGlue.gen_ltf_plan_eq_model
+#print axioms SchedGlue.gen_vec_plan_eq_model
+#print axioms SchedGlue.gen_new_plan_eq_model
+#print axioms SchedGlue.gen_lpsd_forward
+#print axioms SchedGlue.gen_lpsd_plan_eq_ltf
+#print axioms SchedGlue.gen_lpsd_plan_eq_model
+#print axioms SchedGlue.gen_plan_missing_key
+#print axioms SchedGlue.gen_lpsd_missing_key
+#print axioms SchedGlue.planDict_keys
+#print axioms SchedGlue.gen_plan_wiring
+#print axioms SchedGlue.planDict_overlap
+#print axioms SchedGlue.gen_ltf_plan_props
+#print axioms SchedGlue.gen_lpsd_plan_props
+#print axioms SchedGlue.gen_new_plan_props
+#print axioms SchedGlue.gen_vec_plan_props
+#print axioms SchedGlue.gen_plan_overlap_key
